@@ -119,6 +119,13 @@ pub fn gen_name(rng: &mut Rng, cfg: &GenCfg, taken: &Map<String, Value>) -> Stri
             return v;
         }
     }
+    // ordinary names that merely begin like a reserved one (prefix tests instead of equality)
+    if rng.chance(1, 14) {
+        let v = rng.pick(&["_sdk_version", "_sd_card", "_sd2", "_sd_alg2", "_sd_hash", "_SD", "_sd ", "cnf2", "iss2", "exp_date", "sd_hash", "_s", "_sd_jwt_vc_profile"]).to_string();
+        if !taken.contains_key(&v) {
+            return v;
+        }
+    }
     if !cfg.path_safe_names && rng.chance(1, 10) {
         let v = rng.pick(&["$.a", "a.b", "[0]", "a[0]", "a.[1]", "$", ".", "..", "[", "]", "{}", "\"", "~", "_sd_", "...x", "x...", "_SD", "_sd_alg2"]).to_string();
         if !taken.contains_key(&v) {
